@@ -214,6 +214,22 @@ class TFen(Ty):
         return "MaxBitTree<%r>" % (self.elem,)
 
 
+class TEntry(Ty):
+    """the variable bound by `Entry::Vacant(v)` / `Entry::Occupied(o)`: the slot of `key` in the map variable `mapvar`"""
+
+    def __init__(self, kind, mapvar, key, val):
+        self.kind, self.mapvar, self.key, self.val = kind, mapvar, key, val
+
+    def lean(self):
+        return self.val.lean()
+
+    def __eq__(self, o):
+        return self is o
+
+    def __repr__(self):
+        return "Entry::%s" % self.kind
+
+
 class TGen(Ty):
     def __init__(self, name, lean_name):
         self.name, self.lean_name = name, lean_name
@@ -358,6 +374,9 @@ class P:
             self.next()
             return N("pwild", x.pos)
         name = self.ident()
+        while self.at("::"):
+            self.next()
+            name = self.ident()                      # `Entry::Vacant(v)`: the last segment names the constructor
         if self.at("("):
             self.next()
             items = []
@@ -367,8 +386,8 @@ class P:
                     self.next()
             self.expect(")")
             return N("pctor", x.pos, name=name.text, items=items)
-        if self.at("::") or self.at("{"):
-            raise Unsupported("path / struct pattern", x.pos)
+        if self.at("{"):
+            raise Unsupported("struct pattern", x.pos)
         if name.text in ("None",):
             return N("pctor", x.pos, name="None", items=[])
         return N("pvar", x.pos, name=name.text)
@@ -732,6 +751,7 @@ class Fn:
         self.n_seq = self.n_tmp = self.n_for = self.n_while = 0
         self.helpers = []
         self.ret = None
+        self.entry_stack = []
 
     # ---------------------------------------------------------------- helpers
     def err(self, msg, node=None):
@@ -798,6 +818,8 @@ class Fn:
         self.err("no zero value for %r" % (t,), node)
 
     def lean_name(self, rust):
+        if rust.startswith("self."):
+            return "self_" + rust[5:].replace(".", "_")
         return rust + "_r" if (rust in LEAN_KEYWORDS or re.fullmatch(r"t\d+", rust)) else rust
 
     def lookup(self, name, node=None):
@@ -901,6 +923,9 @@ class Fn:
             return self.binary(e, blk, exp)
         if k == "cast":
             return self.cast(e, blk)
+        if k == "field" and e.recv.kind == "var" and e.recv.name == "self" and self.visible("self." + e.name):
+            v = self.lookup("self." + e.name, e)
+            return v.lean, v.ty
         if k == "field":
             s, t = self.ex(e.recv, blk)
             if isinstance(t, TStruct):
@@ -1103,7 +1128,8 @@ class Fn:
             for a in e.args:
                 self.ex(a, blk, TInt("usize"))            # evaluated (may panic), no other effect
             return self.zero(exp), exp
-        if path in ("HashMapFx::default", "HashMap::default", "HashMap::new", "HashMapFx::new") and not e.args:
+        if path in ("HashMapFx::default", "HashMap::default", "HashMap::new", "HashMapFx::new", "collections::HashMap::new",
+                    "std::collections::HashMap::new") and not e.args:
             if not isinstance(exp, TMap):
                 self.err("the type of `%s()` cannot be read off the text" % path, e)
             return "(Rs.HMap.empty : %s)" % exp.lean(), exp
@@ -1133,8 +1159,40 @@ class Fn:
             return tv, sg["ret"]
         self.err("call of `%s` (not a translated function of the unit, not in the subset)" % path, e)
 
+    def self_path(self, e):
+        parts = []
+        while e.kind == "field":
+            parts.append(e.name)
+            e = e.recv
+        if e.kind == "var" and e.name == "self":
+            return ".".join(["self"] + parts[::-1])
+        return None
+
     def mcall(self, e, blk, exp):
         nm = e.name
+        sp = self.self_path(e.recv) if self.unit.get("abs_methods") else None
+        am = self.unit.get("abs_methods", {}).get("%s.%s" % (sp, nm)) if sp else None
+        if am is not None:
+            if len(e.args) != len(am["params"]):
+                self.err("`%s.%s` with %d arguments" % (sp, nm, len(e.args)), e)
+            args = []
+            for a, pt in zip(e.args, am["params"]):
+                pt = self.ty_of_text(pt)
+                x, t = self.ex(a, blk, pt)
+                if t != pt:
+                    self.err("argument of type %r where `%s.%s` takes %r" % (t, sp, nm, pt), a)
+                args.append(atom(x))
+            rt = self.ty_of_text(am["ret"])
+            if am.get("monadic"):
+                tv = self.tmp()
+                blk.bind(tv, "%s %s" % (am["lean"], " ".join(args)))
+                return tv, rt
+            return "%s %s" % (am["lean"], " ".join(args)), rt
+        if nm == "get_mut" and not e.args and e.recv.kind == "var" and self.entry_stack:
+            v = self.lookup(e.recv.name, e)
+            if isinstance(v.ty, TEntry) and v.ty.kind == "O":
+                self.entry_stack[-1]["alias_from"] = v
+                return v.lean, v.ty.val
         if nm in TRANSPARENT and not e.args:
             return self.ex(e.recv, blk, exp)
         s, t = self.ex(e.recv, blk)
@@ -1348,7 +1406,7 @@ class Fn:
             self.stmt(s, blk)
         if fin is not None:
             blk.add(fin)
-        elif fn_level:
+        elif fn_level and not self.entry_stack:
             if not isinstance(self.ret, TUnit):
                 self.err("the function falls off its end without a value")
             blk.add("pure ()")
@@ -1390,7 +1448,10 @@ class Fn:
             v = self.declare(s.pat.name, ann, s)
             blk.let(v.lean, self.zero(ann, s))
             return
+        n_alias = len(self.entry_stack) and self.entry_stack[-1].get("alias_from")
         x, t = self.ex(s.init, blk, ann)
+        if self.entry_stack and self.entry_stack[-1].get("alias_from") is not n_alias and s.pat.kind == "pvar":
+            self.entry_stack[-1]["alias"] = s.pat.name
         if ann is not None and t != ann:
             self.err("`let %s`: the initialiser has type %r, declared is %r" % (",".join(names), t, ann), s)
         pat = self.bind_pat(s.pat, ann if ann is not None else t, s)
@@ -1419,6 +1480,36 @@ class Fn:
                 self.err("assignment of %r to an element of %r" % (t, v.ty), s)
             blk.bind(v.lean, "Rs.setIdx %s %s %s" % (v.lean, atom(i), atom(x)))
             return
+        if lhs.kind == "field":
+            path, r = [], lhs
+            while r.kind == "field":
+                path.append(r.name)
+                r = r.recv
+            if r.kind == "var" and r.name != "self":
+                v = self.lookup(r.name, lhs)
+                path = path[::-1]
+                rhs = s.rhs if s.op is None else N("bin", s.pos, op=s.op, l=lhs, r=s.rhs)
+
+                def leaf_ty(t, pth):
+                    for f in pth:
+                        if not isinstance(t, TStruct) or f not in [n for n, _ in t.fields]:
+                            self.err("field `.%s` of %r" % (f, t), s)
+                        t = t.items[[n for n, _ in t.fields].index(f)]
+                    return t
+                lt = leaf_ty(v.ty, path)
+                x, t = self.ex(rhs, blk, lt)
+                if t != lt:
+                    self.err("assignment of %r to a field of type %r" % (t, lt), s)
+
+                def upd(text, t, pth):
+                    if not pth:
+                        return x
+                    names = [n for n, _ in t.fields]
+                    i = names.index(pth[0])
+                    return tup([upd(proj(text, j, len(names)), t.items[j], pth[1:]) if j == i else proj(text, j, len(names))
+                                for j in range(len(names))])
+                blk.let(v.lean, upd(v.lean, v.ty, path))
+                return
         self.err("assignment target outside the subset", s)
 
     def expr_stmt(self, e, blk):
@@ -1459,6 +1550,13 @@ class Fn:
             if e.recv.kind == "var":
                 v = self.lookup(e.recv.name, e)
                 a = e.args
+                if isinstance(v.ty, TEntry) and v.ty.kind == "V" and e.name == "insert" and len(a) == 1:
+                    x, t = self.ex(a[0], blk, v.ty.val)
+                    if t != v.ty.val:
+                        self.err("`insert(%r)` into a map of %r" % (t, v.ty.val), e)
+                    mv = v.ty.mapvar
+                    blk.let(mv.lean, "Rs.HMap.insertNew %s %s %s" % (mv.lean, atom(v.ty.key), atom(x)))
+                    return
                 if isinstance(v.ty, TVec):
                     if e.name == "push" and len(a) == 1:
                         x, t = self.ex(a[0], blk, v.ty.elem)
@@ -1546,7 +1644,48 @@ class Fn:
         else:
             blk.add("  else pure %s)" % self.state_text(state))
 
+    def entry_match(self, e, blk):
+        sc_ = e.scrut
+        mv = self.lookup(sc_.recv.name, e)
+        if not isinstance(mv.ty, TMap) or len(sc_.args) != 1:
+            self.err("`.entry(..)` on %r" % (mv.ty,), e)
+        kx, kt = self.ex(sc_.args[0], blk, mv.ty.k)
+        if kt != mv.ty.k:
+            self.err("`.entry(%r)` on %r" % (kt, mv.ty), e)
+        state = self.assigned_outer([e.scrut] + [b for _, b in e.arms])
+        pat = self.state_text(state) if state else "_"
+        arms = {}
+        for p_, body in e.arms:
+            if p_.kind != "pctor" or p_.name not in ("Vacant", "Occupied") or len(p_.items) != 1 or p_.items[0].kind != "pvar":
+                self.err("arm of a `match` on `.entry(..)`", e)
+            arms[p_.name] = (p_.items[0].name, body)
+        if set(arms) != {"Vacant", "Occupied"}:
+            self.err("`match` on `.entry(..)` without both `Entry::Vacant` and `Entry::Occupied`", e)
+        blk.add("let %s ← (match Rs.HMap.get %s %s with" % (pat, mv.lean, atom(kx)))
+        for ctor in ("Vacant", "Occupied"):
+            name, body = arms[ctor]
+            sub = Blk()
+            self.scopes.append({})
+            self.entry_stack.append({})
+            try:
+                ev = self.declare(name, TEntry("V" if ctor == "Vacant" else "O", mv, kx, mv.ty.v), e)
+                stmts = body.stmts if body.kind == "block" else [N("expr", body.pos, e=body, semi=True)]
+                stmts = [N("expr", x.pos, e=x.e, semi=True) if (x.kind == "expr" and not x.semi) else x for x in stmts]
+                self.seq(stmts, sub, False, None)
+                al = self.entry_stack[-1].get("alias")
+                if al is not None:
+                    sub.let(mv.lean, "Rs.HMap.update %s %s %s" % (mv.lean, atom(kx), self.lookup(al).lean))
+                sub.add("pure " + self.state_text(state))
+            finally:
+                self.entry_stack.pop()
+                self.scopes.pop()
+            blk.add("  | %s => do" % ("none" if ctor == "Vacant" else "some " + ev.lean))
+            blk.extend(sub, 6)
+        blk.lines[-1] += ")"
+
     def match_stmt(self, e, blk):
+        if e.scrut.kind == "mcall" and e.scrut.name == "entry" and e.scrut.recv.kind == "var":
+            return self.entry_match(e, blk)
         state = self.assigned_outer([b for _, b in e.arms])
         pat = self.state_text(state) if state else "_"
         s, st = self.ex(e.scrut, blk)
@@ -1582,6 +1721,8 @@ class Fn:
                 self.err("range over %r" % (t,), it)
             return "List.range' %s (%s - %s)" % (atom(lo), atom(hi), atom(lo)), t, enum
         s, t = self.ex(x, blk)
+        if isinstance(t, TMap) and self.unit.get("map_iter"):
+            return "%s %s" % (self.unit["map_iter"], atom(s)), TTup([t.k, t.v]), enum
         if not isinstance(t, TVec):
             self.err("loop over a value of type %r" % (t,), it)
         return s, t.elem, enum
@@ -1667,6 +1808,8 @@ class Fn:
         toks = tokenize(body_text, body_pos)
         stmts = P(toks).body()
         params = []
+        for n, t in self.f.get("self_fields", []):
+            params.append(self.declare("self." + n, self.ty_of_text(t)))
         for n, t in self.f["params"]:
             ty = self.ty_of_text(t)
             v = self.declare(n, ty)
@@ -1837,6 +1980,21 @@ unit(name="SrcKmerMatches", props="property C19", file="src/alignment/sparse.rs"
               params=[("seq1", "&[u8]"), ("seq2", "&[u8]"), ("k", "usize")], ret="Vec<(u32, u32)>",
               theorem="RbV.Thm.GenSrcKmerMatches.findKmerMatches_eq_model"),
      ])
+
+EXM = "(Nat × Nat) × (Nat × Nat)"
+unit(name="SrcQGramExact", props="property C19", file="src/data_structures/qgram_index.rs",
+     structs={"Interval": [("start", "usize"), ("stop", "usize")], "ExactMatch": [("pattern", "Interval"), ("text", "Interval")]},
+     pinned_items=["pub struct Interval { pub start: usize, pub stop: usize, }",
+                   "pub struct ExactMatch { pub pattern: Interval, pub text: Interval, }"],
+     abstract=[("qgramsOf", "Nat → List Nat → List Nat"), ("qgramMatches", "Nat → Res (List Nat)"),
+               ("hmIter", "List (Int × (%s)) → List (Int × (%s))" % (EXM, EXM))],
+     abs_methods={"self.ranks.qgrams": dict(lean="qgramsOf", params=["u32", "&[u8]"], ret="Vec<usize>"),
+                  "self.qgram_matches": dict(lean="qgramMatches", params=["usize"], ret="Vec<usize>", monadic=True)},
+     map_iter="hmIter",
+     functions=[dict(name="exact_matches", lean="exactMatches", header="pub fn exact_matches(&self, pattern: &[u8]) -> Vec<ExactMatch>",
+                     self_fields=[("q", "u32")], params=[("pattern", "&[u8]")], ret="Vec<ExactMatch>",
+                     locals={"diagonals": "HashMap<i32, ExactMatch>", "matches": "Vec<ExactMatch>"},
+                     theorem="RbV.Thm.GenSrcQGramExact.exactMatches_eq_model")])
 
 # ================================================================================================== self-test
 
